@@ -31,6 +31,12 @@ def check(ids):
         d = "%s/seeded/%s" % (V, s)
         prop = s.split("-")[0]
         res = {"repo_head": sh("git -C /repo rev-parse --short HEAD").stdout.strip(), "runs": []}
+        # evidence files must come from runs on the unchanged tree: keep them aside while the seed is applied
+        saved = {}
+        for p in [prop] + EXTRA.get(s, []):
+            ef = "%s/evidence/%s.json" % (V, p)
+            if os.path.exists(ef):
+                saved[ef] = open(ef).read()
         a = sh("git -C /repo apply %s/patch.diff" % d)
         if a.returncode != 0:
             res["error"] = "patch does not apply: " + a.stderr[-300:]
@@ -46,6 +52,8 @@ def check(ids):
                     print(s, p, r.returncode, (viol[:2] or ["(no alarm)"]))
             finally:
                 sh("git -C /repo checkout -- .")
+                for ef, txt in saved.items():
+                    open(ef, "w").write(txt)
                 left = sh("git -C /repo status --porcelain").stdout.strip()
                 for l in left.split("\n"):
                     if l.startswith("??"):
